@@ -92,6 +92,14 @@ func genConfig(rng *simcore.RNG, env *simcore.Env) simcore.Op {
 		if rng.Bool(0.7) {
 			nbyz = 1
 		}
+	case "C02":
+		nv = rng.Range(3, 4)
+		nbyz = 1
+		if rng.Bool(0.5) {
+			// one real validator; the adversary holds every other key, with unconstrained power
+			nv, nbyz = 1, rng.Range(1, 3)
+			c["oneval"] = true
+		}
 	}
 	if env.Thorough() && rng.Bool(0.3) {
 		nv++
@@ -109,7 +117,10 @@ func genConfig(rng *simcore.RNG, env *simcore.Env) simcore.Op {
 		pw = append(pw, p)
 		tot += p
 	}
-	for i := 0; i < nbyz; i++ {
+	for i := 0; i < nbyz && c.Bool("oneval"); i++ {
+		pw = append(pw, []int{1, 3, 10, 40, 100}[rng.Intn(5)])
+	}
+	for i := 0; i < nbyz && !c.Bool("oneval"); i++ {
 		max := (tot - 1) / 2 // b < (tot+b)/3  <=>  2b < tot
 		if max < 1 {
 			max = 1
@@ -126,7 +137,7 @@ func genConfig(rng *simcore.RNG, env *simcore.Env) simcore.Op {
 	c["powers"] = pw
 	c["hash_len"] = []int{1, 8, 20, 32}[rng.Intn(4)]
 	c["mempool"] = []string{"v0", "v1"}[rng.Intn(2)]
-	c["skip_timeout_commit"] = nv+nbyz > 1 && rng.Bool(0.5)
+	c["skip_timeout_commit"] = nv > 1 && rng.Bool(0.5)
 	c["real_ticker"] = false
 	c["heights"] = rng.Range(2, 5)
 	c["nops"] = rng.Range(150, 700)
@@ -593,7 +604,7 @@ func (s *sim) Next(rng *simcore.RNG) simcore.Op {
 	}
 	var dead []*simNode
 	for _, n := range s.nodes {
-		if !n.isAlive() {
+		if !n.isAlive() && n.startFails < 2 {
 			dead = append(dead, n)
 		}
 	}
@@ -758,6 +769,7 @@ func (s *sim) apply(op simcore.Op) bool {
 		n.start()
 		s.afterStimulus(n)
 		if f := n.failureMsg(); f != "" {
+			n.startFails++
 			s.env.Count("probe.start_failed")
 			s.env.Note("node %d start failed: %s", n.idx, f)
 			s.env.Logf("start failed node=%d: %s", n.idx, f)
